@@ -230,6 +230,27 @@ def roundtrip(ctx, cli, rng, size, style, kind, pw):
             rc2, out2, err2, _ = cli.run([cli.crypt, '-d'] + pwargs + ['-'], d, stdin=out)
             with open(os.path.join(d, 'dec.bin'), 'wb') as f:
                 f.write(out2)
+    if style == 'keyfile' and rc == 0 and rc2 == 0:
+        # the same password through the other entry point, and a wrong password through the same one: -k and -p must agree on
+        # what the password is (all of its bytes, whatever their value)
+        rc3, _, err3, _ = cli.run([cli.crypt, '-d', '-p', pw, '-o', 'dec2.bin', 'enc.bin'], d)
+        got2 = open(os.path.join(d, 'dec2.bin'), 'rb').read() if os.path.exists(os.path.join(d, 'dec2.bin')) else None
+        if rc3 != 0 or got2 != data:
+            vio(ctx, cli, 'C19', 'asconcrypt:roundtrip:keyfile-vs-option-password', exit=rc3, stderr=err3[-200:], password=pw.encode().hex()[:80], **desc)
+        rc4, _, _, _ = cli.run([cli.crypt, '-e', '-p', pw, '-o', 'enc3.bin', 'in.bin'], d)
+        if rc4 == 0:
+            rc5, _, err5, _ = cli.run([cli.crypt, '-d', '-k', 'key.txt', '-o', 'dec3.bin', 'enc3.bin'], d)
+            got3 = open(os.path.join(d, 'dec3.bin'), 'rb').read() if os.path.exists(os.path.join(d, 'dec3.bin')) else None
+            if rc5 != 0 or got3 != data:
+                vio(ctx, cli, 'C19', 'asconcrypt:roundtrip:option-vs-keyfile-password', exit=rc5, stderr=err5[-200:], password=pw.encode().hex()[:80], **desc)
+        wrong = pw[:-1] + ('y' if pw[-1] != 'y' else 'z')
+        with open(os.path.join(d, 'wrong.txt'), 'wb') as f:
+            f.write(wrong.encode() + b'\n')
+        rc6, _, _, _ = cli.run([cli.crypt, '-d', '-k', 'wrong.txt', '-o', 'dec4.bin', 'enc.bin'], d)
+        if rc6 == 0 or os.path.exists(os.path.join(d, 'dec4.bin')):
+            vio(ctx, cli, 'C19', 'asconcrypt:wrong-password-accepted:keyfile', exit=rc6, output_left=os.path.exists(os.path.join(d, 'dec4.bin')),
+                password=pw.encode().hex()[:80], wrong=wrong.encode().hex()[:80], **desc)
+        ctx.counters['keyfile_cross_entry_checks'] = ctx.counters.get('keyfile_cross_entry_checks', 0) + 1
     if rc != 0:
         vio(ctx, cli, 'C19', 'asconcrypt:roundtrip:encrypt-failed:%s' % style, exit=rc, stderr=err[-300:], **desc)
     else:
